@@ -54,14 +54,14 @@ func genC15(t *rapid.T) *c15Scenario {
 }
 
 type c15Rec struct {
-	ev, h    int
-	first    *client.Line // deep copy taken on entry
-	argsPtr  uintptr
-	tagsPtr  uintptr
-	nargs    int
-	hasTags  bool
-	linePtr  uintptr
-	second   *client.Line // deep copy taken after the yields (non-scribblers only)
+	ev, h   int
+	first   *client.Line // deep copy taken on entry
+	argsPtr uintptr
+	tagsPtr uintptr
+	nargs   int
+	hasTags bool
+	linePtr uintptr
+	second  *client.Line // deep copy taken after the yields (non-scribblers only)
 	// keep the original storage reachable so that its addresses cannot be reused by later allocations
 	orig     *client.Line
 	origArgs []string
